@@ -55,7 +55,7 @@ def main():
     if req.get("exhaustive") and spec.get("enumerate"):
         for inp in spec["enumerate"](req.get("tier", "quick")):
             one(inp)
-            if len(failures) >= 5:
+            if len(failures) >= req.get('max_failures', 5):
                 break
     n = req.get("count", 1000)
     maxf = req.get('max_failures', 5)
